@@ -50,7 +50,7 @@ def emit_format(f, gen):
     fe = f.get("field_enum") or {"type": "", "enumerators": []}
     L.append("  enumType := %s" % lstr(fe["type"]))
     L.append("  enumerators := [" + ", ".join("(%s, %d)" % (lstr(n), v) for n, v in fe["enumerators"]) + "]")
-    gs, ss, inits, legs, pas, algs, ops = [], [], [], [], [], [], []
+    gs, ss, inits, legs, pas, algs, ops, algfacts = [], [], [], [], [], [], [], []
     for fn in f["functions"]:
         k = fn["kind"]
         if k == "getter":
@@ -100,6 +100,8 @@ def emit_format(f, gen):
             pas.append("(%s, %s)" % (lstr(fn["name"]), lstr(fn["pdu_type"].replace("*", "").strip())))
         elif k == "algorithmic":
             algs.append("(%s, %s)" % (lstr(fn["name"]), lstr(fn["body_sha"])))
+            algfacts.append("(%s, %d, [%s])" % (lstr(fn["name"]), fn.get("ret_bits") or 0,
+                                                ", ".join(str(x) for x in fn.get("memset_scales", []))))
         else:
             ops.append("(%s, %s)" % (lstr(fn["name"]), lstr(fn.get("why", ""))))
     L.append("  getters := [\n" + ",\n".join(gs) + "]")
@@ -109,6 +111,7 @@ def emit_format(f, gen):
     L.append("  payloadAcc := [" + ", ".join(pas) + "]")
     L.append("  algorithmic := [" + ", ".join(algs) + "]")
     L.append("  opaqueFns := [" + ", ".join(ops) + "]")
+    L.append("  algoFacts := [" + ", ".join(algfacts) + "]")
     L.append("  statics := [" + ", ".join("(%s, %s, %s)" % (lstr(s["name"]), lstr(s["type"]), lbool(s["const"]))
                                          for s in f["statics"]) + "]")
     hdr = f.get("header") or ""
